@@ -60,7 +60,8 @@ package netpoll
 //@     && cap(b.caches[i]) <= mallocMax && pool[b.caches[i]#arr] == 1 && blknode[b.caches[i]#arr] == 0 && cacheown[b.caches[i]#arr] == b && cacheidx[b.caches[i]#arr] == i
 //@ pred wfcaches(b *UnsafeLinkBuffer) = len(b.caches) >= 0 && (b.caches != nil ==> allocated(b.caches)) && (forall i int {b.caches[i]#arr}{b.caches[i]#base}{b.caches[i]#cap} :: 0 <= i && i < len(b.caches) ==> cacheok(b, i))
 //@     && (b.cachePeek != nil ==> cacheown[b.cachePeek#arr] == nil)
-//@ pred wfs(b *UnsafeLinkBuffer) = wfcaches(b) && wfcur(b) && wflin(b) && wfclosed(b) && wfuniq(b) && wfnode(b) && wfshape(b) && wfpos(b)
+//@ pred wfhead(b *UnsafeLinkBuffer) = forall n *linkBufferNode :: inb(b, n) ==> n.ord >= b.head.ord
+//@ pred wfs(b *UnsafeLinkBuffer) = wfcaches(b) && wfhead(b) && wfcur(b) && wflin(b) && wfclosed(b) && wfuniq(b) && wfnode(b) && wfshape(b) && wfpos(b)
 //@     && wfref(b) && wfpool(b) && wfpeek(b)
 //@ pred wfcnt(b *UnsafeLinkBuffer, d int) = b.length == fpos(b) - rpos(b) - d && b.mallocSize == mpos(b) - fpos(b)
 //@ pred wf(b *UnsafeLinkBuffer) = wfs(b) && wfcnt(b, 0)
@@ -282,7 +283,7 @@ package netpoll
 //@   ensures samepool()
 //@   modifies b.mallocSize, b.write, b.flush, b.length, linkBufferNode.next, linkBufferNode.buf, linkBufferNode.own, linkBufferNode.ord, linkBufferNode.sp, pool, blknode, cacheown, cacheidx
 //@   ghost after store next#1: attach(b, b.write, value)
-//@   loop 1 invariant samepool() && wfref(b) && wfpool(b) && wfpeek(b) && wfcur(b) && wflin(b) && wfclosed(b) && wfuniq(b) && wfnode(b) && wfpos(b) && others(b) && b.flush == old(b.flush)
+//@   loop 1 invariant samepool() && wfcaches(b) && wfhead(b) && wfref(b) && wfpool(b) && wfpeek(b) && wfcur(b) && wflin(b) && wfclosed(b) && wfuniq(b) && wfnode(b) && wfpos(b) && others(b) && b.flush == old(b.flush)
 //@   loop 1 invariant b.length == old(b.length) && rpos(b) == old(rpos(b)) && mpos(b) == old(mpos(b)) && n >= 0
 //@   loop 1 invariant node != b.write.next ==> inb(b, node) && b.flush.ord <= node.ord && node.ord <= b.write.ord && n == node.sp + len(node.buf) - old(fpos(b))
 //@   loop 1 invariant node == b.write.next ==> n == mpos(b) - old(fpos(b))
@@ -357,3 +358,36 @@ package netpoll
 //@   requires wf(b)
 //@   ensures sum >= 0
 //@   loop 1 invariant inb(b, node) && node.ord <= b.read.ord && sum >= 0
+
+// ---- release ----
+// relok(n): if this Release drops the last reference of a managed node, its block can be handed back
+//@ pred relok(n *linkBufferNode) = n.refer >= 1 && (n.refer == 1 && n.mode & 1 == 0 && cap(n.buf) <= mallocMax ==> pool[n.buf#arr] == 1 && n.buf#base == 0 && cap(n.buf) > 0)
+//@ pred released(n *linkBufferNode) = n.refer == old(n.refer) - 1
+//@     && (old(n.refer) == 1 ==> n.buf == nil && n.origin == nil && n.next == nil)
+//@     && (old(n.refer) > 1 ==> sameslice(n.buf, old(n.buf)) && n.origin == old(n.origin) && n.next == old(n.next))
+
+//@ func (*linkBufferNode).Release
+//@   property C02 C03
+//@   requires relok(node) && node.origin != node
+//@   requires node.origin != nil ==> node.origin.origin == nil && relok(node.origin)
+//@   requires node.origin != nil && node.refer == 1 && node.mode & 1 == 0 && cap(node.buf) <= mallocMax && node.origin.refer == 1 && node.origin.mode & 1 == 0 ==> node.buf#arr != node.origin.buf#arr
+//@   ensures err == nil && released(node)
+//@   ensures forall m *linkBufferNode :: m != node && !(old(node.origin) != nil && m == old(node.origin)) ==> m.refer == old(m.refer) && sameslice(m.buf, old(m.buf)) && m.origin == old(m.origin) && m.next == old(m.next)
+//@   ensures forall m *linkBufferNode :: m == old(node.origin) && m != nil ==> released(m)
+//@   ensures forall a int :: pool[a] == old(pool[a]) || (pool[a] == 2 && old(pool[a]) == 1 && ((a == old(node.buf#arr) && old(node.refer) == 1 && old(node.mode & 1) == 0) || (old(node.origin) != nil && a == old(node.origin.buf#arr) && old(node.origin.refer) == 1 && old(node.origin.mode & 1) == 0)))
+//@   modifies linkBufferNode.refer, linkBufferNode.buf, linkBufferNode.origin, linkBufferNode.next, pool
+
+//@ func (*UnsafeLinkBuffer).Release
+//@   property C01 C02 C03
+//@   requires wf(b)
+//@   ensures err == nil && wf(b) && others(b) && b.length == old(b.length) && rpos(b) == old(rpos(b)) && fpos(b) == old(fpos(b)) && b.mallocSize == old(b.mallocSize)
+//@   ensures b.head == b.read && len(b.caches) == 0 && b.cachePeek == nil
+//@   modifies b.read, b.head, b.caches, b.cachePeek, linkBufferNode.refer, linkBufferNode.buf, linkBufferNode.origin, linkBufferNode.next, linkBufferNode.own, pool, mem:[]byte
+//@   ghost after call (*linkBufferNode).Release#1: node.own = nil
+//@   loop 1 invariant inb(b, b.read) && b.read.ord >= old(b.read.ord) && b.read.ord <= b.flush.ord && rpos(b) == old(rpos(b))
+//@   loop 2 invariant wfs(b) && others(b) && b.length == old(b.length) && rpos(b) == old(rpos(b)) && fpos(b) == old(fpos(b)) && mpos(b) == old(mpos(b))
+//@   loop 2 invariant forall a int :: a > 0 && wasalloc(a) ==> blknode[a] == old(blknode[a]) && cacheown[a] == old(cacheown[a]) && cacheidx[a] == old(cacheidx[a])
+//@   loop 3 invariant -1 <= rangeindex && wfhead(b) && wfcur(b) && wflin(b) && wfclosed(b) && wfuniq(b) && wfnode(b) && wfshape(b) && wfpos(b) && wfref(b) && wfpool(b) && wfpeek(b)
+//@   loop 3 invariant others(b) && b.head == b.read && b.length == old(b.length) && rpos(b) == old(rpos(b)) && fpos(b) == old(fpos(b)) && mpos(b) == old(mpos(b))
+//@   loop 3 invariant len(b.caches) >= 0 && (b.caches != nil ==> allocated(b.caches)) && (b.cachePeek != nil ==> cacheown[b.cachePeek#arr] == nil)
+//@   loop 3 invariant forall i int {b.caches[i]#arr}{b.caches[i]#base}{b.caches[i]#cap} :: rangeindex < i && i < len(b.caches) ==> cacheok(b, i)
